@@ -25,14 +25,13 @@
 // "T<k>" for every k = t - r, r a row (any row, or any non-blank row) of one of its files, t a target row (9, 99,
 // 999: the last row before row numbers get one more digit), so that every pair of rows of the example is put on the
 // two sides of such a boundary by some embedding. Their results carry "shift":true and, instead of the text,
-// "digests": {name: {"len","hash"}} (polynomial hash mod 2^61-1, recomputed from the model's text in Coq).
+// "digests": {name: {"len","hash"}} (63-bit multiplicative digest, recomputed from the model's text in Coq).
 package main
 
 import (
 	"context"
 	"encoding/json"
 	"fmt"
-	"math/bits"
 	"os"
 	"runtime"
 	"sort"
@@ -194,19 +193,12 @@ func embeddings(tier string) [][]string {
 	return out
 }
 
-const (
-	hashP = uint64(1)<<61 - 1
-	hashM = uint64(1000003)
-)
-
-// h <- (h*m + c + 1) mod (2^61 - 1) over the bytes; Check/C08Check.v hash_str
+// 63-bit multiplicative digest, Base/Packed.v digest: h <- h * 1099511628211 + (byte + 1) mod 2^63
 func hashText(t string) uint64 {
-	var h uint64
+	const mask = uint64(1)<<63 - 1
+	h := uint64(1469598103934665603)
 	for i := 0; i < len(t); i++ {
-		hi, lo := bits.Mul64(h, hashM)
-		lo, c := bits.Add64(lo, uint64(t[i])+1, 0)
-		hi += c
-		_, h = bits.Div64(hi, lo, hashP)
+		h = (h*1099511628211 + uint64(t[i]) + 1) & mask
 	}
 	return h
 }
